@@ -234,8 +234,11 @@ func spkAdvs(rt *rapid.T, c *vw.ClusterSpec) {
 		if rapid.IntRange(0, 2).Draw(rt, "peerRouterID") == 0 {
 			p.RouterID = fmt.Sprintf("10.9.9.%d", i+1)
 		}
-		if rapid.IntRange(0, 3).Draw(rt, "peerPassword") == 0 {
+		switch rapid.IntRange(0, 3).Draw(rt, "peerPassword") {
+		case 0:
 			p.Password = fmt.Sprintf("pw%d", i)
+		case 1:
+			p.Secret = "pw-" + p.Name
 		}
 		if len(c.BFD) > 0 && rapid.IntRange(0, 2).Draw(rt, "peerBFD") == 0 {
 			p.BFD = c.BFD[0].Name
@@ -957,9 +960,9 @@ func (r *spkRun) atQuiescence(label string) *vw.Violation {
 			if par.RouterID != nil {
 				rid = par.RouterID.String()
 			}
-			if rid != p.RouterID || par.PeerASN != p.ASN || par.MyASN != p.MyASN || par.PeerAddress != p.Address || par.Password != p.Password {
+			if rid != p.RouterID || par.PeerASN != p.ASN || par.MyASN != p.MyASN || par.PeerAddress != p.Address || par.Password != p.WantPassword() {
 				return vw.Violationf("session-parameters", "%s: the session of peer %s was created with router id %q, ASNs %d/%d, address %s, password %q; the peer is configured with router id %q, ASNs %d/%d, address %s, password %q",
-					label, p.Name, rid, par.MyASN, par.PeerASN, par.PeerAddress, par.Password, p.RouterID, p.MyASN, p.ASN, p.Address, p.Password)
+					label, p.Name, rid, par.MyASN, par.PeerASN, par.PeerAddress, par.Password, p.RouterID, p.MyASN, p.ASN, p.Address, p.WantPassword())
 			}
 		}
 		if m := r.sim.rec.mutated(); m != "" {
